@@ -364,6 +364,12 @@ func (P *Program) setWellKnownGlobals(ex *Exec) {
 // ---------- intrinsics (functions defined in the overlay files) ----------
 
 func intrinsicTable() map[string]func(ex *Exec, f *Frame, call *ssa.Call, args []Value, reach *Term) (Value, *Term) {
+	tab := intrinsicTable0()
+	contractIntrinsics(tab)
+	return tab
+}
+
+func intrinsicTable0() map[string]func(ex *Exec, f *Frame, call *ssa.Call, args []Value, reach *Term) (Value, *Term) {
 	return map[string]func(ex *Exec, f *Frame, call *ssa.Call, args []Value, reach *Term) (Value, *Term){
 		"verifAssert": func(ex *Exec, f *Frame, call *ssa.Call, args []Value, reach *Term) (Value, *Term) {
 			label := "assert"
